@@ -263,6 +263,23 @@ def ext_cases(rng, tier):
     return out
 
 
+def many_chunk_cases(rng, tier):
+    """one frame (or one frame header) spread over many transport chunks that are all queued before a single poll:
+    34..300 chunks of 1..3 bytes, so that any per-poll budget on chunks pulled from the transport shows"""
+    out = []
+    units = [mk(1, FILL[:60]), mk(1, FILL[:200]), mk(0x21, FILL[:90]), mk(0x0e, FILL[:40]), mk(7, b'\x04'), mk(4, b''), mk(0, FILL[:70]), mk(GREASE8, FILL[:50], ll=8)]
+    tail = mk(1, b'\xaa\xbb')
+    for u in units:
+        for pre in (b'', mk(1, b'\x00\x01')):
+            s = pre + u + tail
+            for size in ((1, 2) if tier == 'quick' else (1, 2, 3)):
+                ch = [s[i:i + size] for i in range(0, len(s), size)]
+                for e in ('F', ''):
+                    out.append(batch(ch, e, 8))
+                out.append(batch(ch[:len(ch) // 2], '', 2)[:] + ',' + ','.join('c' + c.hex() for c in ch[len(ch) // 2:]) + ',F,p,p,p,p,p,p')
+    return out
+
+
 def run_cases_long(rng, tier):
     out = []
     u0, g8, d0, d1, un = mk(0x21, b''), mk(GREASE8, b''), mk(0, b''), mk(0, b'z'), mk(0x0e, b'\x01\x02\x00')
@@ -346,6 +363,11 @@ def parse_obs(out):
             break
         if w == 'pend':
             pend = True
+            continue
+        if w == 'pend!':
+            # Pending although the transport never answered Pending during the call and the call did not wake itself:
+            # nobody holds the waker, the frames already delivered are never acted on under a wake-driven executor
+            tail = 'pending-without-a-wake-up'
             continue
         pend = False
         if w.startswith('f:'):
@@ -453,6 +475,7 @@ class P(Property):
                         out.append(incremental(ch, e, 1))
         out += ext_cases(rng, tier)
         out += run_cases_long(rng, tier)
+        out += many_chunk_cases(rng, tier)
         out += hc_cases()
         out += big_length_cases(rng)
         for _ in range(4000 if tier == 'quick' else 60000):
